@@ -20,10 +20,13 @@ I_C12interest == (Is("interest") /\ Last.err = "") =>
                     /\ (Last.s.params >= 0 => Ranges(Last.digRanges) = InterestDigested(Last.s) /\ Last.digestOk)
 \* a shape with a signer must come out signed
 I_C12signed == ((Is("data") \/ Is("interest")) /\ Last.err = "" /\ Last.s.signer # "none") => Last.s.sigL >= 0
+\* every shipped signer signs every shape (a signer that fails leaves nothing for a validator to accept)
+I_C12built == ((Is("data") \/ Is("interest")) /\ Last.s.signer # "none") => Last.err = ""
 I_C12tamper == Is("tamper") => TamperOK(Last)
 FailedC03 == (IF I_C03data THEN {} ELSE {"I_C03data"}) \cup (IF I_C03interest THEN {} ELSE {"I_C03interest"})
 FailedC12 == (IF I_C12data THEN {} ELSE {"I_C12data"}) \cup (IF I_C12interest THEN {} ELSE {"I_C12interest"})
              \cup (IF I_C12signed THEN {} ELSE {"I_C12signed"}) \cup (IF I_C12tamper THEN {} ELSE {"I_C12tamper"})
+             \cup (IF I_C12built THEN {} ELSE {"I_C12built"})
 CONSTANT Which
 Failed == IF Which = "C03" THEN FailedC03 ELSE FailedC12
 CollectViol == Failed = {} \/ PrintT(<<"viol", hi, Failed>>)
